@@ -292,6 +292,39 @@ type hsSpec struct {
 	Kind string      `json:"kind"`
 	C    peer.Policy `json:"c"`
 	S    peer.Policy `json:"s"`
+	Tok  bool        `json:"tok,omitempty"` // both ends hold token material (peer.TokenWorld): TOKEN / IDTOKENS can run
+}
+
+var (
+	tokOnce  sync.Once
+	tokWorld *peer.TokenWorld
+)
+
+func world() *peer.TokenWorld {
+	tokOnce.Do(func() {
+		w, err := peer.NewTokenWorld("verif.local")
+		if err != nil {
+			panic(err)
+		}
+		tokWorld = w
+	})
+	return tokWorld
+}
+
+// TOKEN and IDTOKENS are two names of one method (HTCondor's CAUTH_TOKEN)
+func canon(m string) string {
+	if m == "IDTOKENS" {
+		return "TOKEN"
+	}
+	return m
+}
+func inListCanon(x string, l []string) bool {
+	for _, y := range l {
+		if canon(x) == canon(y) {
+			return true
+		}
+	}
+	return false
 }
 
 type hsObs struct {
@@ -347,9 +380,9 @@ func parseAd(msg []byte, skipInt bool) (map[string]string, bool) {
 // server a reply; reply CLAIMTOBE(2) is followed by the claim and the
 // acknowledgement, then the server's hasKey flag; PASSWORD(512) has no traffic.
 func walkWire(tap *peer.Tap, o *hsObs) {
-	cf, _ := peer.ParseFrames(tap.Bytes(true))
-	sf, _ := peer.ParseFrames(tap.Bytes(false))
-	cm, sm := peer.Messages(cf), peer.Messages(sf)
+	msgs, pos := tap.OrderedMessages()
+	cm, sm := msgs[0], msgs[1]
+	cpos, spos := pos[0], pos[1]
 	if len(sm) == 0 {
 		return
 	}
@@ -409,6 +442,17 @@ func walkWire(tap *peer.Tap, o *hsObs) {
 				o.RanOK = "FS"
 				return
 			}
+		case 2048: // TOKEN / IDTOKENS (AKEP2): client step 1, server step 2, client step 3; after a
+			// success the server's key-exchange message is next, after a failure the client's bitmask
+			if ci+1 >= len(cm) || si >= len(sm) {
+				return
+			}
+			ci += 2
+			si++
+			if si < len(sm) && (ci >= len(cm) || spos[si] < cpos[ci]) {
+				o.RanOK = "TOKEN"
+				return
+			}
 		case 0:
 			return
 		default: // PASSWORD and the like: nothing on the wire
@@ -423,14 +467,22 @@ func runHonest(sp hsSpec) hsObs {
 	wg.Add(2)
 	go func() {
 		defer wg.Done()
-		sr = peer.RunServer(sa, sp.S.Config())
+		scfg := sp.S.Config()
+		if sp.Tok {
+			scfg = world().Server(scfg)
+		}
+		sr = peer.RunServer(sa, scfg)
 		if sr.Err != nil {
 			sa.Close()
 		}
 	}()
 	go func() {
 		defer wg.Done()
-		cr = peer.RunClient(ca, sp.C.Config())
+		ccfg := sp.C.Config()
+		if sp.Tok {
+			ccfg = world().Client(ccfg)
+		}
+		cr = peer.RunClient(ca, ccfg)
 		if cr.Err != nil {
 			ca.Close()
 		}
@@ -569,10 +621,15 @@ func judge(sp hsSpec, o hsObs) (string, string) {
 		return "auth-table", fmt.Sprintf("table says authentication runs=%v; reported %v, on the wire %q", v.AuthRuns, o.SAuth, o.RanOK)
 	}
 	if v.AuthRuns {
-		if o.CMeth != o.RanOK || o.SMeth != o.RanOK {
+		// TOKEN and IDTOKENS are two names of the one method the wire calls CAUTH_TOKEN:
+		// each end reports the name it listed
+		if canon(o.CMeth) != o.RanOK || canon(o.SMeth) != o.RanOK {
 			return "method-disagree", fmt.Sprintf("method on the wire %q, client reports %q, server %q", o.RanOK, o.CMeth, o.SMeth)
 		}
-		if !inList(o.RanOK, sp.C.Methods) || !inList(o.RanOK, sp.S.Methods) {
+		if !inList(o.CMeth, sp.C.Methods) || !inList(o.SMeth, sp.S.Methods) {
+			return "method-not-own", fmt.Sprintf("client reports %q (lists %v), server reports %q (lists %v)", o.CMeth, sp.C.Methods, o.SMeth, sp.S.Methods)
+		}
+		if !inListCanon(o.RanOK, sp.C.Methods) || !inListCanon(o.RanOK, sp.S.Methods) {
 			return "method-not-mutual", "method run is not in both lists: " + o.RanOK
 		}
 	}
@@ -632,6 +689,14 @@ func hsTerm(sp hsSpec, o hsObs) string {
 		out, core.Bool(o.CErr), core.Bool(o.SErr),
 		core.Bool(o.CAuth), core.Bool(o.SAuth), core.Bool(o.CEnc), core.Bool(o.SEnc),
 		methTerm(o.CMeth), methTerm(o.SMeth), core.Bool(o.CReal && o.SReal), roundsTerm(o.Rounds))
+}
+
+func defaultNames() []string {
+	var out []string
+	for _, m := range security.DefaultAuthMethods() {
+		out = append(out, string(m))
+	}
+	return out
 }
 
 type mshape struct {
@@ -695,9 +760,7 @@ func genHonest(c *core.Ctx) error {
 								// run with the default OPTIONAL
 								ci3 := nonReqInteg[(cell+mi+2*ci)%3]
 								si3 := nonReqInteg[(cell/3+mi+ci)%3]
-								specs = append(specs, hsSpec{"hs",
-									peer.Policy{Auth: ca, Enc: ce, Integ: ci3, Methods: ms.C, Ciphers: cs.C, Command: cmd},
-									peer.Policy{Auth: sa, Enc: se, Integ: si3, Methods: ms.S, Ciphers: cs.S}})
+								specs = append(specs, hsSpec{Kind: "hs", C: peer.Policy{Auth: ca, Enc: ce, Integ: ci3, Methods: ms.C, Ciphers: cs.C, Command: cmd}, S: peer.Policy{Auth: sa, Enc: se, Integ: si3, Methods: ms.S, Ciphers: cs.S}})
 							}
 						}
 					}
@@ -717,10 +780,43 @@ func genHonest(c *core.Ctx) error {
 							if (k+ci)%2 == 1 {
 								ms = mshapes[1]
 							}
-							specs = append(specs, hsSpec{"hs",
-								peer.Policy{Auth: ca, Enc: ce, Integ: l[0], Methods: ms.C, Ciphers: cs.C, Command: 60007},
-								peer.Policy{Auth: sa, Enc: se, Integ: l[1], Methods: ms.S, Ciphers: cs.S}})
+							specs = append(specs, hsSpec{Kind: "hs", C: peer.Policy{Auth: ca, Enc: ce, Integ: l[0], Methods: ms.C, Ciphers: cs.C, Command: 60007}, S: peer.Policy{Auth: sa, Enc: se, Integ: l[1], Methods: ms.S, Ciphers: cs.S}})
 						}
+					}
+				}
+			}
+		}
+	}
+	// token methods really running (both ends hold a usable token / signing key): IDTOKENS and
+	// TOKEN alone, next to SCITOKENS / FS, the default method list on both sides, and the two
+	// names of the token method mixed
+	tshapes := []mshape{
+		{"idtokens", []string{"IDTOKENS"}, []string{"IDTOKENS"}},
+		{"idtokens-scitokens", []string{"IDTOKENS", "SCITOKENS"}, []string{"IDTOKENS", "SCITOKENS"}},
+		{"idtokens-fs", []string{"IDTOKENS", "FS"}, []string{"IDTOKENS", "FS"}},
+		{"defaults-both", defaultNames(), defaultNames()},
+		{"token", []string{"TOKEN"}, []string{"TOKEN"}},
+		{"token-fs-orders", []string{"TOKEN", "FS"}, []string{"FS", "TOKEN"}},
+		{"token-alias-names", []string{"IDTOKENS"}, []string{"TOKEN", "IDTOKENS"}},
+		{"token-alias-client-both", []string{"IDTOKENS", "TOKEN"}, []string{"TOKEN"}},
+	}
+	tcell := 0
+	for _, ca := range fourLevels {
+		for _, sa := range fourLevels {
+			for _, ce := range fourLevels {
+				for _, se := range fourLevels {
+					tcell++
+					for ti, ts := range tshapes {
+						if c.Quick() && (tcell+ti)%2 != 0 {
+							continue
+						}
+						cs := cshapes[(tcell+ti)%2*1]
+						if (tcell/2+ti)%3 == 0 {
+							cs = cshapes[1]
+						}
+						specs = append(specs, hsSpec{Kind: "hs", Tok: true,
+							C: peer.Policy{Auth: ca, Enc: ce, Integ: nonReqInteg[(tcell+ti)%3], Methods: ts.C, Ciphers: cs.C, Command: 60007},
+							S: peer.Policy{Auth: sa, Enc: se, Integ: nonReqInteg[(tcell/3+ti)%3], Methods: ts.S, Ciphers: cs.S}})
 					}
 				}
 			}
@@ -732,9 +828,7 @@ func genHonest(c *core.Ctx) error {
 			for _, se := range fourLevels {
 				for _, cs := range cshapes {
 					for _, a := range []string{"REQUIRED", "OPTIONAL"} {
-						specs = append(specs, hsSpec{"hs",
-							peer.Policy{Auth: a, Enc: ce, Integ: l[0], Methods: mshapes[i%3].C, Ciphers: cs.C, Command: 60007},
-							peer.Policy{Auth: "PREFERRED", Enc: se, Integ: l[1], Methods: mshapes[i%3].S, Ciphers: cs.S}})
+						specs = append(specs, hsSpec{Kind: "hs", C: peer.Policy{Auth: a, Enc: ce, Integ: l[0], Methods: mshapes[i%3].C, Ciphers: cs.C, Command: 60007}, S: peer.Policy{Auth: "PREFERRED", Enc: se, Integ: l[1], Methods: mshapes[i%3].S, Ciphers: cs.S}})
 					}
 				}
 			}
